@@ -77,14 +77,18 @@ func childNames(kind string, rot int) []string {
 			{c[0], c[1], "07", "..", c[2], "2"},
 			{sp, c[0], c[1], "00", c[2], "é"},
 			{"00", sp, c[0], c[1], "2", c[2]},
-		}[rot%5]
+			// names longer than any fixed-size scratch buffer a lookup might
+			// hash them in (65, 129 and 300 bytes; multi-byte ones too)
+			{strings.Repeat("n", 65), c[0], strings.Repeat("語", 43), c[1], strings.Repeat("long-name/", 0) + strings.Repeat("q", 300), c[2]},
+		}[rot%6]
 	}
 	return [][]string{
 		{"a", "a ", "é", " a", "..", "%2F"},
 		{"1", "0", "a", "-1", "07", "+5"},
 		{"%2F", "..", " a", "a", "2", "é"},
 		{"2024", "a", "2", "1", "a ", "0"},
-	}[rot%4]
+		{strings.Repeat("n", 65), "a", strings.Repeat("語", 43), "1", strings.Repeat("q", 300), "é"},
+	}[rot%5]
 }
 
 // nameRot picks the name list of a directory from its shape (FNV of the
